@@ -36,13 +36,19 @@ impl Manager {
         let mut cfg = Cfg::new_with_predefined_call_names(nodes, &Some(interrupt_call_names))?;
         NodeDirectionPass::run(&mut cfg)?;
         EliminateDeadCodeDirectionsPass::run(&mut cfg)?;
-        AvailableValuePass::run(&mut cfg)?;
-        EcallTerminationPass::run(&mut cfg)?;
-        FunctionMarkupPass::run(&mut cfg)?;
-
         // Cutting the edges behind an exit changes the values that reach the
         // code after it, which can in turn identify further exits: repeat
-        // until the values are those of the final graph.
+        // until no further exit is found. The functions are marked on the
+        // resulting graph, so that their bodies are what their entries reach.
+        loop {
+            AvailableValuePass::run(&mut cfg)?;
+            if !EcallTerminationPass::terminate_exits(&mut cfg) {
+                break;
+            }
+        }
+        FunctionMarkupPass::run(&mut cfg)?;
+
+        // The values of the final graph (marking the functions merges returns)
         loop {
             AvailableValuePass::run(&mut cfg)?;
             if !EcallTerminationPass::terminate_exits(&mut cfg) {
